@@ -12,3 +12,17 @@ package gast
 //@ ufunc universeType(name string) bool
 //@ func IsUniverseType props C10,C14 trusted
 //@ ensures result == universeType(typeName)
+
+// ---- the comment block handed to the annotation parser (C16): one node per comment of the doc group, in source
+// order, numbered by its position in the group (GetDescription's "leading contiguous run" is about these numbers) ----
+// assumed: positions come from the file set (go/token, contract in core/arbitrators); Pos/End of a comment have no effect
+//@ extern go/ast.Comment.Pos
+//@ ensures true
+//@ extern go/ast.Comment.End
+//@ ensures true
+//@ func MapDocListToCommentBlock props C16,C18,C14
+//@ requires forall(i, 0, len(docList), docList[i] != nil)
+//@ ensures nodes: len(result.Comments) == len(docList) && forall(i, 0, len(docList), result.Comments[i].Index == i && result.Comments[i].Text == docList[i].Text)
+//@ ensures nonneg: forall(i, 0, len(result.Comments), result.Comments[i].Position.StartLine >= 0 && result.Comments[i].Position.StartCol >= 0 && result.Comments[i].Position.EndLine >= 0 && result.Comments[i].Position.EndCol >= 0)
+//@ loop 0 invariant 0 <= _n && _n <= len(docList) && len(comments) == _n && fresh(comments)
+//@ loop 0 invariant forall(i, 0, _n, comments[i].Index == i && comments[i].Text == docList[i].Text && comments[i].Position.StartLine >= 0 && comments[i].Position.StartCol >= 0 && comments[i].Position.EndLine >= 0 && comments[i].Position.EndCol >= 0)
